@@ -346,6 +346,18 @@ pub fn run(thorough: bool) -> Vec<Part> {
         |blk| format!("token URI block {}", blk),
     );
     t5.record(&mut part, "token-level-uris");
+    // very long URIs (offsets beyond 16 bits)
+    {
+        let mut t6 = crate::par::Tally::default();
+        for n in [1000usize, 65520, 65529, 65530, 65535, 65536, 65537, 70000, 131072, 200000] {
+            check_uri(format!("http://{}/index", "a".repeat(n)).as_bytes(), &mut t6);
+            check_uri(format!("http://{}", "a".repeat(n)).as_bytes(), &mut t6);
+            check_uri(format!("/{}", "p".repeat(n)).as_bytes(), &mut t6);
+            check_uri(format!("{}://x/y", "s".repeat(n)).as_bytes(), &mut t6);
+        }
+        t6.sample(json!({"giant_uris": "authority / path lengths 1000 .. 200000"}));
+        t6.record(&mut part, "giant-uris");
+    }
     part.set("rule", json!("all strings up to the bound over the stated alphabets, distinct by construction; non-trivial = the reference does not return the default answer (token accepted / abs path non-empty)"));
     part.set("exhaustive", json!(true));
     vec![part]
